@@ -594,6 +594,10 @@ func genSession14(c *Chooser) Session {
 		n := []string{"out", "patched"}[c.Int(2)]
 		s.Links = append(s.Links, [2]string{n, fifoMark})
 	}
+	// an input may be something whose size stat cannot tell (`jd <(cmd) b`)
+	if c.Chance(1, 12) {
+		s.Links = append(s.Links, [2]string{[]string{an, bn}[c.Int(2)], sizeUnknownMark})
+	}
 	// a stale earlier result may already sit where -o is going to write
 	if c.Chance(1, 3) {
 		stale := "@ [\"old\"]\n- \"stale output from an earlier run\"\n+ \"" + strings.Repeat("x", c.Range(0, 600)) + "\"\n"
